@@ -1,10 +1,11 @@
 import Pm.Dev2Login
+import Pm.ReplyProof
 import Pm.Daemon
 /-! Helper lemmas for C10 (second part): `LoginHead` through `_handle_ready_device`, the ping append, the whole of
     `dev_post_poll`, the client enqueue; reachability; FIFO completions; "only the head speaks"; the device output
     buffer.  The model definitions are not touched: `handleReady` and `postPoll` are cut into pieces here and the
     pieces are proved equal to the originals. -/
-namespace Pm.Dev2
+namespace Pm.Dev2.Login2
 
 /-! ## 1. `_handle_ready_device` in pieces -/
 
@@ -165,7 +166,7 @@ theorem postPoll_eq (d : Dev) (env : Env) (o : Oracle) : postPoll d env o = post
   rfl
 
 /-- appending behind the head keeps the invariant -/
-theorem LoginHead.append {d d' : Dev} (h : LoginHead d) (l : List Action) (hc : d'.conn = d.conn)
+theorem _root_.Pm.Dev2.LoginHead.append {d d' : Dev} (h : LoginHead d) (l : List Action) (hc : d'.conn = d.conn)
     (hl : d'.loggedIn = d.loggedIn) (ha : d'.acts = d.acts ++ l) : LoginHead d' := by
   intro h2 h3
   rw [hc] at h2; rw [hl] at h3
@@ -257,8 +258,8 @@ theorem enqueue_loginHead (d : Dev) (com : Nat) (targets : List Bytes) (cid : Na
 
 /-! ## reachability -/
 
-/-- the device states the daemon can produce from a device that is not connected: `dev_initial_connect`
-    (`connectDev`), passes of `dev_post_poll` with any kernel answers and any regex answers, client commands
+/-- `Reach d0 d`: the device states `d` the daemon can produce from the device state `d0`: `dev_initial_connect`
+    (`connectDev` on a NOT_CONNECTED device), passes of `dev_post_poll` with any kernel answers and any regex answers, client commands
     (`dev_enqueue_actions` with any command, target list, client), and the two field updates `Pm.Daemon` makes
     around them (`devPass` hands the argument store to the device, `install` clears the retry counter).
     Passes that end in a modelled abort (an assertion of the C program, a missing answer, fuel) end the run. -/
@@ -1904,6 +1905,9 @@ theorem postPoll_fifo (d : Dev) (env : Env) (o : Oracle) (h : NoClientLogin d) :
 inductive Ev where
   | pass (env : Env) (o : Oracle)
   | enq (com : Nat) (targets : List Bytes) (cid : Nat) (tele : Bool) (al : Nat)
+  | connect (env : Env)                      -- `dev_initial_connect`
+  | store (s : List (Nat × List Arg))        -- `Pm.Daemon.devPass` hands the shared argument store to the device
+  | retry                                    -- `Pm.Daemon.install` clears the retry counter
 
 /-- a history: the device afterwards, the client ids of the completions reported (in order), the client ids of the
     actions enqueued (in order, one entry per action) -/
@@ -1917,11 +1921,14 @@ def runHist : Dev → List Ev → Dev × List Nat × List Nat
     let e := Pm.Daemon.enqueue d com targets cid tele al
     let h := runHist e.1 r
     (h.1, h.2.1, List.replicate e.2 cid ++ h.2.2)
+  | d, .connect env :: r => runHist (connectDev { dev := d, env := env, sys := [] }).dev r
+  | d, .store s :: r => runHist { d with args := s } r
+  | d, .retry :: r => runHist { d with retryCount := 0 } r
 
 /-- the client commands of a history use a real client (`cid ≠ 0`) and a real command (`com ≠ 0`: slot 0 is login) -/
 def Ev.ok : Ev → Prop
-  | .pass _ _ => True
   | .enq com _ cid _ _ => com ≠ 0 ∧ cid ≠ 0
+  | _ => True
 
 theorem clientIds_replicate (l : List Action) (cid : Nat) (hc : cid ≠ 0) (h : ∀ a ∈ l, a.clientId = cid) :
     clientIds l = List.replicate l.length cid := by
@@ -1960,5 +1967,320 @@ theorem runHist_fifo (evs : List Ev) (d : Dev) (h : NoClientLogin d) (hev : ∀ 
         · exact h a ha
         · intro h0; exact absurd h0 ((h3 a ha).2 hcom)
       rw [ih _ hn hr, h1, clientIds_append, h2, clientIds_replicate l cid hcid (fun a ha => (h3 a ha).1), List.append_assoc]
+    | connect env =>
+      unfold runHist
+      rw [ih _ (connectDev_ncl _ h) hr, connectDev_clientIds]
+    | store s => unfold runHist; exact ih _ h hr
+    | retry => unfold runHist; exact ih _ h hr
 
-end Pm.Dev2
+/-! ## what the head sends does not depend on the rest of the queue
+
+The statement interpreter receives the device record, which contains the queue; these lemmas show it never looks
+at it: replacing the queue changes nothing but the queue field of the result. -/
+set_option linter.unusedSimpArgs false
+
+/-- the same result with another queue -/
+def withActs (q : List Action) (r : StepR) : StepR := { r with dev := { r.dev with acts := q } }
+
+theorem subOf_acts (d : Dev) (q : List Action) (i : Int) : subOf { d with acts := q } i = subOf d i := rfl
+theorem findPlug_acts (d : Dev) (q : List Action) (n : Bytes) : findPlug { d with acts := q } n = findPlug d n := rfl
+theorem getArgs_acts (d : Dev) (q : List Action) (n : Nat) : getArgs { d with acts := q } n = getArgs d n := rfl
+theorem setArgs_acts (d : Dev) (q : List Action) (n : Nat) (as) : setArgs { d with acts := q } n as = { setArgs d n as with acts := q } := rfl
+
+theorem stmtSend_acts (d a o e fmt) (q : List Action) : stmtSend { d with acts := q } a o e fmt = withActs q (stmtSend d a o e fmt) := by
+  unfold stmtSend withActs
+  try simp only [subOf_acts, findPlug_acts, getArgs_acts, setArgs_acts]
+  repeat (first | rfl | split | dsimp only)
+theorem stmtExpect_acts (d a o pat) (q : List Action) : stmtExpect { d with acts := q } a o pat = withActs q (stmtExpect d a o pat) := by
+  unfold stmtExpect withActs
+  try simp only [subOf_acts, findPlug_acts, getArgs_acts, setArgs_acts]
+  repeat (first | rfl | split | dsimp only)
+theorem stmtDelay_acts (d a o e now us) (q : List Action) : stmtDelay { d with acts := q } a o e now us = withActs q (stmtDelay d a o e now us) := by
+  unfold stmtDelay withActs
+  try simp only [subOf_acts, findPlug_acts, getArgs_acts, setArgs_acts]
+  repeat (first | rfl | split | dsimp only)
+theorem stmtSetplugstate_acts (d a o e l p s i) (q : List Action) : stmtSetplugstate { d with acts := q } a o e l p s i = withActs q (stmtSetplugstate d a o e l p s i) := by
+  unfold stmtSetplugstate withActs
+  try simp only [subOf_acts, findPlug_acts, getArgs_acts, setArgs_acts]
+  repeat (first | rfl | split | dsimp only)
+theorem stmtSetresult_acts (d a o p s i) (q : List Action) : stmtSetresult { d with acts := q } a o p s i = withActs q (stmtSetresult d a o p s i) := by
+  unfold stmtSetresult withActs
+  try simp only [subOf_acts, findPlug_acts, getArgs_acts, setArgs_acts]
+  repeat (first | rfl | split | dsimp only)
+theorem stmtForeach_acts (d a o e b n) (q : List Action) : stmtForeach { d with acts := q } a o e b n = withActs q (stmtForeach d a o e b n) := by
+  unfold stmtForeach withActs
+  try simp only [subOf_acts, findPlug_acts, getArgs_acts, setArgs_acts]
+  repeat (first | rfl | split | dsimp only)
+def ifState (d : Dev) (a : Action) (e : ExecCtx) : PState :=
+  match e.plugs with
+    | some (p :: _) => match p.node with
+      | some n => match (getArgs d a.arglist).find? (fun (g : Arg) => g.node == n) with
+        | some g => g.state
+        | none => PState.unknown
+      | none => PState.unknown
+    | _ => PState.unknown
+def ifTail (d : Dev) (a : Action) (o : Oracle) (e : ExecCtx) (body : List Stmt) (wantOn : Bool) (st : PState) : StepR :=
+  if (wantOn && st == .on) || (!wantOn && st == .off) then
+    let newCtx : ExecCtx := { block := body, pos := 0, plugs := some (e.plugs.getD []), plugItr := none, plugCopy := none, processing := false }
+    ⟨d, { a with exec := newCtx :: { e with processing := true } :: a.exec.drop 1 }, o, [], true⟩
+  else if st == .unknown then ⟨d, { a with errnum := .expfail }, o, [], true⟩
+  else ⟨d, a, o, [], true⟩
+theorem stmtIf_eq (d a o e b n) : stmtIf d a o e b n =
+    if e.processing then ⟨d, setTop a { e with processing := false }, o, [], true⟩ else ifTail d a o e b n (ifState d a e) := by
+  unfold stmtIf ifTail ifState; rfl
+theorem ifState_acts (d : Dev) (q : List Action) (a e) : ifState { d with acts := q } a e = ifState d a e := rfl
+theorem ifTail_acts (d a o e b n st) (q : List Action) : ifTail { d with acts := q } a o e b n st = withActs q (ifTail d a o e b n st) := by
+  unfold ifTail withActs
+  split
+  · rfl
+  · split <;> rfl
+theorem stmtIf_acts (d a o e b n) (q : List Action) : stmtIf { d with acts := q } a o e b n = withActs q (stmtIf d a o e b n) := by
+  rw [stmtIf_eq, stmtIf_eq, ifState_acts, ifTail_acts]
+  split <;> rfl
+
+theorem processStmt_acts (d : Dev) (a : Action) (o : Oracle) (now : Time) (q : List Action) :
+    processStmt { d with acts := q } a o now = withActs q (processStmt d a o now) := by
+  unfold processStmt
+  dsimp only
+  split
+  · rfl
+  all_goals first
+    | exact stmtExpect_acts ..
+    | exact stmtSend_acts ..
+    | exact stmtDelay_acts ..
+    | exact stmtSetplugstate_acts ..
+    | exact stmtSetresult_acts ..
+    | exact stmtForeach_acts ..
+    | exact stmtIf_acts ..
+
+theorem innerLoop_acts (now : Time) (fuel : Nat) (d : Dev) (a : Action) (o : Oracle) (acc : List Out) (q : List Action) :
+    innerLoop now fuel { d with acts := q } a o acc = withActs q (innerLoop now fuel d a o acc) := by
+  induction fuel generalizing d a o acc with
+  | zero => simp only [innerLoop, processStmt_acts]; rfl
+  | succ n ih =>
+    unfold innerLoop
+    dsimp only
+    rw [processStmt_acts]
+    split
+    · rename_i h
+      have h' : ((processStmt d a o now).finished && (processStmt d a o now).act.exec.length > a.exec.length) = true := h
+      rw [if_pos h']
+      exact ih ..
+    · rename_i h
+      have h' : ¬ ((processStmt d a o now).finished && (processStmt d a o now).act.exec.length > a.exec.length) = true := h
+      rw [if_neg h']
+      rfl
+
+/-- what an iteration says depends on the head of the queue only: the actions queued behind it can be replaced by
+    anything without changing a byte -/
+theorem spoken_rest_indep (c : CS) (o : Oracle) (a0 : Action) (rest rest' : List Action) (h : c.dev.acts = a0 :: rest) :
+    spoken { c with dev := { c.dev with acts := a0 :: rest' } } o = spoken c o := by
+  have hs : speaker { c with dev := { c.dev with acts := a0 :: rest' } } = speaker c := by
+    unfold speaker; simp only [h]
+  unfold spoken
+  rw [hs]
+  cases speaker c with
+  | none => rfl
+  | some a =>
+    show (innerLoop c.env.now 64 { ({ c.dev with acts := a0 :: rest' } : Dev) with wake := none } a o []).out
+      = (innerLoop c.env.now 64 { c.dev with wake := none } a o []).out
+    have e : ({ ({ c.dev with acts := a0 :: rest' } : Dev) with wake := none } : Dev)
+        = { ({ c.dev with wake := none } : Dev) with acts := a0 :: rest' } := rfl
+    rw [e, innerLoop_acts]; rfl
+
+/-! ### what a telnet reply looks like -/
+
+theorem telnetStep_reply (st : Nat) (cmd b : UInt8) :
+    (telnetStep st cmd b).2.2.2 = [] ∨ (telnetStep st cmd b).2.2.2 = [255, 251, b] ∨ (telnetStep st cmd b).2.2.2 = [255, 252, b] := by
+  unfold telnetStep
+  split
+  · split <;> simp
+  · split
+    · split
+      · simp
+      · split <;> simp
+    · dsimp only
+      split
+      · split
+        · simp
+        · split <;> simp
+      · simp
+
+/-- the fold of `telnetFilter` from any accumulator: the reply component only grows, by whole IAC WILL / IAC WONT triples -/
+theorem telnetFold_reply (bs : Bytes) (st : Nat) (cmd : UInt8) (k0 r0 : List UInt8) :
+    ∃ chunks : List Bytes,
+      (bs.foldl (fun (acc : Nat × UInt8 × List UInt8 × List UInt8) b =>
+        let (st, cmd, kept, reply) := acc
+        let (st', cmd', k, r) := telnetStep st cmd b
+        (st', cmd', kept ++ k, reply ++ r)) (st, cmd, k0, r0)).2.2.2 = r0 ++ chunks.flatten ∧
+      ∀ ch ∈ chunks, ∃ b, ch = [255, 251, b] ∨ ch = [255, 252, b] := by
+  induction bs generalizing st cmd k0 r0 with
+  | nil => exact ⟨[], by simp, by simp⟩
+  | cons b r ih =>
+    simp only [List.foldl_cons]
+    have hs := telnetStep_reply st cmd b
+    generalize telnetStep st cmd b = t at *
+    obtain ⟨st', cmd', k, rp⟩ := t
+    simp only at hs ⊢
+    obtain ⟨chunks, h1, h2⟩ := ih st' cmd' (k0 ++ k) (r0 ++ rp)
+    rcases hs with hs | hs | hs
+    · exact ⟨chunks, by rw [h1, hs]; simp, h2⟩
+    · refine ⟨rp :: chunks, by rw [h1]; simp, ?_⟩
+      intro ch hch
+      simp only [List.mem_cons] at hch
+      rcases hch with rfl | hch
+      · exact ⟨b, Or.inl hs⟩
+      · exact h2 ch hch
+    · refine ⟨rp :: chunks, by rw [h1]; simp, ?_⟩
+      intro ch hch
+      simp only [List.mem_cons] at hch
+      rcases hch with rfl | hch
+      · exact ⟨b, Or.inr hs⟩
+      · exact h2 ch hch
+
+/-- the telnet replies are a sequence of `IAC WILL x` / `IAC WONT x` triples -/
+theorem telnetReplies_shape (st : Nat) (cmd : UInt8) (bs : Bytes) :
+    ∃ chunks : List Bytes, telnetReplies st cmd bs = chunks.flatten ∧
+      ∀ ch ∈ chunks, ∃ b, ch = [255, 251, b] ∨ ch = [255, 252, b] := by
+  obtain ⟨chunks, h1, h2⟩ := telnetFold_reply bs st cmd [] []
+  exact ⟨chunks, by unfold telnetReplies; rw [h1]; simp, h2⟩
+
+/-! ## `Reach` covers what `Pm.Daemon` does with a device -/
+
+open Pm.Daemon in
+/-- a device pass of the daemon (`devPass`, when the daemon is still alive afterwards) leaves the device in a state
+    reachable from the state it had -/
+theorem devPass_reach (p : Pm.Daemon.PassIn) (a : Pm.Daemon.DevAcc) (nd : Bytes × Dev) (d0 : Dev) (h : Reach d0 nd.2)
+    (hd : (Pm.Daemon.devPass p a nd).dead = false) :
+    ∃ d', (Pm.Daemon.devPass p a nd).devs = a.devs ++ [(nd.1, d')] ∧ Reach d0 d' := by
+  unfold Pm.Daemon.devPass at hd ⊢
+  split
+  · exact ⟨nd.2, rfl, h⟩
+  · rename_i hdead
+    simp only [hdead, Bool.false_eq_true, ↓reduceIte] at hd
+    dsimp only at hd ⊢
+    generalize hpp : postPoll _ _ _ = r at hd ⊢
+    obtain ⟨c, o', outs, tmo⟩ := r
+    dsimp only at hd ⊢
+    refine ⟨c.dev, rfl, ?_⟩
+    have hc : c = (postPoll _ _ _).1 := (congrArg Prod.fst hpp).symm
+    rw [hc]
+    refine Reach.pass _ _ _ (Reach.store _ _ h) ?_
+    rw [← hc]
+    simp only [Bool.or_eq_false_iff] at hd
+    exact hd.1
+
+/-- the per-device step of `install` -/
+def installStep (com : Nat) (bnames : List Bytes) (cid : Nat) (tele : Bool) (al : Nat)
+    (acc : List (Bytes × Dev) × Nat) (nd : Bytes × Dev) : List (Bytes × Dev) × Nat :=
+  let (d1, n) := Pm.Daemon.enqueue nd.2 com bnames cid tele al
+  let d1 := if n > 0 && d1.conn != 2 then { d1 with retryCount := 0 } else d1
+  (acc.1 ++ [(nd.1, d1)], acc.2 + n)
+
+theorem installStep_reach (com bnames cid tele al acc nd) :
+    ∃ d', (installStep com bnames cid tele al acc nd).1 = acc.1 ++ [(nd.1, d')] ∧ ∀ d0, Reach d0 nd.2 → Reach d0 d' := by
+  unfold installStep
+  generalize he : Pm.Daemon.enqueue nd.2 com bnames cid tele al = e
+  obtain ⟨d1, n⟩ := e
+  dsimp only
+  refine ⟨_, rfl, ?_⟩
+  intro d0 h
+  have h1 : Reach d0 d1 := by
+    have := Reach.enqueue nd.2 com bnames cid tele al h
+    rw [he] at this; exact this
+  split
+  · exact Reach.retry _ h1
+  · exact h1
+
+theorem installFold_reach (com bnames cid tele al) (l : List (Bytes × Dev)) (acc : List (Bytes × Dev) × Nat)
+    (P : Bytes × Dev → Prop) (hacc : ∀ x ∈ acc.1, P x)
+    (hl : ∀ nd ∈ l, ∀ d', (∀ d0, Reach d0 nd.2 → Reach d0 d') → P (nd.1, d')) :
+    ∀ x ∈ (l.foldl (installStep com bnames cid tele al) acc).1, P x := by
+  induction l generalizing acc with
+  | nil => exact hacc
+  | cons nd r ih =>
+    simp only [List.foldl_cons]
+    apply ih
+    · obtain ⟨d', h1, h2⟩ := installStep_reach com bnames cid tele al acc nd
+      rw [h1]
+      intro x hx
+      rw [List.mem_append] at hx
+      rcases hx with hx | hx
+      · exact hacc x hx
+      · simp only [List.mem_singleton] at hx; subst hx; exact hl nd (by simp) d' h2
+    · intro nd' hnd'; exact hl nd' (by simp [hnd'])
+
+open Pm.Daemon in
+/-- `install` with its per-device step named -/
+def install' (w : W) (c : Cli) (com : Pm.Client.Com) (names : List Pm.Name) : W × Cli :=
+  let al := w.alNext
+  let bnames := names.map ofChars
+  let no213 := (w, put c (codeLine 213 ++ crlf ++ (if c.quit then [] else prompt)))
+  if w.devs.any (fun (nd : Bytes × Dev) => needsDev nd.2 bnames && !handles nd.2 (comIdx com) bnames) then no213 else
+  let distinct := bnames.foldl (fun acc x => if acc.contains x then acc else acc ++ [x]) []
+  let args : List Arg := distinct.map fun n => { node := n, val := none, state := .unknown, result := .none }
+  let r := w.devs.foldl (installStep (comIdx com) bnames c.id c.telemetry al) ([], 0)
+  if r.2 == 0 then no213 else
+  ({ w with devs := r.1, store := (al, args) :: w.store, alNext := al + 1 }, { c with cmd := some { com, names, pending := r.2, error := false, al } })
+
+open Pm.Daemon in
+theorem install_eq (w : W) (c : Cli) (com : Pm.Client.Com) (names : List Pm.Name) :
+    install w c com names = install' w c com names := by
+  unfold install install' installStep
+  rfl
+
+open Pm.Daemon in
+/-- a client command leaves every device in a state reachable from the state it had -/
+theorem install_reach (w : W) (c : Cli) (com : Pm.Client.Com) (names : List Pm.Name) :
+    ∀ x ∈ (install w c com names).1.devs, ∃ nd ∈ w.devs, x.1 = nd.1 ∧ ∀ d0, Reach d0 nd.2 → Reach d0 x.2 := by
+  have keep : ∀ x ∈ w.devs, ∃ nd ∈ w.devs, x.1 = nd.1 ∧ ∀ d0, Reach d0 nd.2 → Reach d0 x.2 :=
+    fun x hx => ⟨x, hx, rfl, fun _ h => h⟩
+  rw [install_eq]
+  unfold install'
+  dsimp only
+  split
+  · exact keep
+  · split
+    · exact keep
+    · exact installFold_reach (comIdx com) (names.map ofChars) c.id c.telemetry w.alNext w.devs ([], 0)
+        (fun x => ∃ nd ∈ w.devs, x.1 = nd.1 ∧ ∀ d0, Reach d0 nd.2 → Reach d0 x.2) (by simp)
+        (fun nd hnd d' h => ⟨nd, hnd, rfl, h⟩)
+
+/-! ## concrete values for the non-vacuity examples of `Props/C10` -/
+namespace Ex
+
+/-- one plug `1` = node `n1`; login = send "l", expect; on = delay 0 (finishes at once); off = send "o", expect -/
+def dev0 : Dev :=
+  { plugs := [⟨[49], some [110, 49]⟩],
+    scripts := fun n => if n = 0 then some [.send [108], .expect 1] else if n = 7 then some [.delay 0]
+                        else if n = 10 then some [.send [111], .expect 2] else none,
+    timeout := 10000000, acts := [], toBuf := [], fromBuf := [], xmStr := none, xmOffs := [], xmResult := false,
+    xmUsed := false, args := [], nextUid := 0, shortCircuitDelay := false }
+
+/-- a kernel that connects at once and reports nothing ready -/
+def env0 : Env := { now := 1000, revents := 0, sockets := [5], connects := [0], soerrs := [0], read := none, writeOk := true }
+/-- a kernel whose `connect` answers EINPROGRESS -/
+def envSlow : Env := { env0 with connects := [1], soerrs := [] }
+/-- the descriptor is writable and the pending connect has succeeded -/
+def envOut : Env := { env0 with revents := 2, sockets := [], connects := [] }
+/-- the device has sent a telnet `IAC DO SUPPRESS-GO-AHEAD` -/
+def envTelnet : Env := { env0 with revents := 1, read := some (some [255, 253, 3]) }
+/-- twenty seconds later; a new connect would succeed at once -/
+def envLate : Env := { env0 with now := 20000000, sockets := [6] }
+
+/-- `dev_initial_connect` succeeded: CONNECTED, not logged in, login queued -/
+def connected : Dev := (connectDev { dev := dev0, env := env0, sys := [] }).dev
+/-- `dev_initial_connect` left the device CONNECTING -/
+def connecting : Dev := (connectDev { dev := dev0, env := envSlow, sys := [] }).dev
+/-- connected and logged in, nothing queued -/
+def ready : Dev := { dev0 with conn := 2, loggedIn := true, fd := some 5 }
+/-- just connected, a client `off` (client 3) queued behind the login -/
+def fresh : Dev := (Pm.Daemon.enqueue connected 10 [[110, 49]] 3 false 0).1
+
+/-- two `on` commands (clients 1, 2), an `off` (client 3), then a pass -/
+def hist : List Ev := [.enq 7 [[110, 49]] 1 false 0, .enq 7 [[110, 49]] 2 false 0, .enq 10 [[110, 49]] 3 false 0, .pass env0 ⟨[]⟩]
+
+end Ex
+
+
+end Pm.Dev2.Login2
